@@ -1127,11 +1127,17 @@ def bs_american_binary_delta(
     d2_tensor = d2(s, t, v)
     w = v * t.sqrt()
 
-    # ToDo: fix 0/0 issue
+    def _div(numerator: Tensor, denominator: Tensor) -> Tensor:
+        # 0 / 0 (at maturity or at zero volatility, away from the strike) is 0
+        output = numerator / denominator
+        return output.where(
+            (numerator != 0).logical_or(denominator != 0), torch.zeros_like(output)
+        )
+
     p = (
-        npdf(d2_tensor).div(spot * w)
+        _div(npdf(d2_tensor), spot * w)
         + ncdf(d1_tensor).div(strike)
-        + npdf(d1_tensor).div(strike * w)
+        + _div(npdf(d1_tensor), strike * w)
     )
     return p.where(max_log_moneyness < 0, torch.zeros_like(p))
 
